@@ -1,9 +1,9 @@
 SPECIFICATION Spec
-CONSTANTS Cap = 50
+CONSTANTS Cap = 3
   Flush = 100
   MaxIndex = 2000
   MaxOps = 400
   MaxFails = 3
-  Bursts = {}
+  Bursts = {60, 99, 100}
   ResetTargets = {0, 7, 150, 1000}
 CHECK_DEADLOCK FALSE
